@@ -238,13 +238,7 @@ def option_consumers(run, ctx):
     if ci is not None:
         c = H.canon(ci["body"])
         for fld, meth in (("delegate_size_limit", "nfa_size_limit"), ("delegate_dfa_size_limit", "dfa_size_limit")):
-            ok = False
-            for nd in H.walk(ci["body"]):
-                if nd.get("k") == "If":
-                    cc = H.canon(nd["cond"])
-                    m = H.pat_match("let Some({v}) = {o}.%s" % fld, cc)
-                    if m and ".%s(Some(%s))" % (meth, m.group("v")) in H.canon(nd["then"]):
-                        ok = True
+            ok, _why = S.option_forwarding(ci, fld, meth)
             n += 1
             if not ok:
                 run.violation(fam, label, "limit/" + fld, H.where(ci), "compile_inner does not forward %s to the inner engine's %s" % (fld, meth))
